@@ -73,11 +73,21 @@ def build(rnd, pack, dcls):
     for _ in range(rnd.randint(2, 14)):
         ctx = rnd.choice(['text', 'text', 'text', 'unkarg', 'declarg', 'foot', 'head', 'item', 'env', 'inline',
                           'display', 'comment', 'skip', 'ltskip', 'decl', 'uenv', 'define', 'declenv', 'cell',
-                          'caption', 'nested_unk', 'mathtext', 'verb', 'group', 'usermacarg', 'theorem', 'inspect', 'deftheorem'])
+                          'caption', 'nested_unk', 'mathtext', 'verb', 'group', 'usermacarg', 'theorem', 'inspect', 'deftheorem', 'removedenv'])
         n = rnd.choice(names)
         if ctx == 'text':
             parts.append('w ' + use(n) + ' w')
             rec(n)
+        elif ctx == 'removedenv':
+            # the body of an environment that leaves no text is still interpreted: names used (and definitions made)
+            # there count
+            ps = pkgset(pack)
+            env_ = 'tikzpicture' if 'tikz' in ps else 'lstlisting' if 'listings' in ps else None
+            if env_:
+                parts.append('\\begin{%s} a ' % env_ + use(n) + ' \\end{%s}' % env_)
+                rec(n)
+            else:
+                parts.append('w')
         elif ctx == 'group':
             parts.append('{w ' + use(n) + '}')
             rec(n)
